@@ -331,7 +331,7 @@ impl Prop for C19 {
     fn plan(&self, tier: Tier) -> Plan {
         match tier {
             Tier::Quick => Plan { runs: 3600, time_box_s: None, isolation: Isolation::Threads },
-            Tier::Thorough => Plan { runs: 200_000, time_box_s: Some(420), isolation: Isolation::Threads },
+            Tier::Thorough => Plan { runs: 1_000_000, time_box_s: Some(420), isolation: Isolation::Threads },
         }
     }
     fn generate(&self, rc: &RunCtx) -> Case {
